@@ -21,7 +21,7 @@ VARIABLES l, div, dev
 Trace == ndJsonDeserialize("trace.ndjson")
 NoDiv == [at |-> 0]
 tvars == <<vars, l, div, dev>>
-TInit == Init /\ l = 1 /\ div = NoDiv /\ dev = {} /\ TLCSet(1, 1) /\ TLCSet(2, NoDiv) /\ TLCSet(3, {})
+TInit == Init /\ l = 1 /\ div = NoDiv /\ dev = {} /\ TLCSet(1, 1) /\ TLCSet(2, NoDiv) /\ TLCSet(3, {}) /\ TLCSet(4, 0)
 
 Strip(p) == [i \in 1..Len(p) |-> St(p[i].op, p[i].n, p[i].v, p[i].a, p[i].b, p[i].sub)]
 SubsOK(p) == \A i \in 1..Len(p) : IF p[i].sub = 0 THEN p[i].subp = <<>>
@@ -41,14 +41,16 @@ TStep ==
   /\ LET ev == Trace[l] IN
      /\ Act(ev)
      /\ dev' = IF ev.op = "reset" THEN dev ELSE dev \cup LastEv.dv
+     \* informative only: refusals issued by the other of the two calls (VerifyTx / DoTx) than the specification's structure says
+     /\ (ev.op = "submit" /\ ev.res = "reject" /\ LastEv.res = "reject" /\ ev.stage # LastEv.stage) => TLCSet(4, TLCGet(4) + 1)
      /\ div' = IF ev.op = "reset" \/ Good(ev) THEN NoDiv
                ELSE [at |-> l, tr |-> ev.tr, op |-> ev.op, expres |-> LastEv.res, actres |-> ev.res, exp |-> Obs', act |-> ev.obs]
   /\ l' = l + 1
 TSpec == TInit /\ [][TStep]_tvars
 (* bookkeeping in TLC registers (-workers 1): 1 = highest line index reached without divergence, 2 = divergence with the *)
-(* longest explained prefix, 3 = deviations used                                                                          *)
+(* longest explained prefix, 3 = deviations used, 4 = number of refusals issued by the other call (informative)            *)
 Book == /\ (div = NoDiv /\ l > TLCGet(1)) => TLCSet(1, l)
         /\ (div # NoDiv /\ (TLCGet(2) = NoDiv \/ TLCGet(2).at < div.at)) => TLCSet(2, div)
         /\ TLCSet(3, TLCGet(3) \cup dev)
-Post == JsonSerialize("result.json", <<[hw |-> TLCGet(1), len |-> Len(Trace), div |-> TLCGet(2), dev |-> TLCGet(3)]>>)
+Post == JsonSerialize("result.json", <<[hw |-> TLCGet(1), len |-> Len(Trace), div |-> TLCGet(2), dev |-> TLCGet(3), stagediff |-> TLCGet(4)]>>)
 =============================================================================
